@@ -197,7 +197,7 @@ def run(build, job, workdir):
         nds = [last.get(i, "0") for i in range(int(nn[-1]) if nn else 0)]
         rp = os.path.join(os.path.dirname(HERE), "replays", job.pid if hasattr(job, "pid") else "E1")
         os.makedirs(rp, exist_ok=True)
-        rpf = os.path.join(rp, "%s-%s.json" % (job.harness, job.entry))
+        rpf = os.path.join(rp, "%s-%s-%s.json" % (job.harness, job.entry, hashlib.sha1(job.name.encode()).hexdigest()[:6]))
         confirmed = None
         if True:
             b = os.path.join(wd, "%s_nat_%s" % (job.harness, job.entry))
